@@ -1,0 +1,45 @@
+//go:build verif
+
+package plugin
+
+// Contracts for package plugin. Comments only; read by /verif (build tag "verif").
+
+//@ ghost var clockRead Int
+
+// remaining(epoch, lt, now): time left until epoch+lt, clamped at zero (C16).
+//@ macro remaining(epoch, lt, now) = imax(0, epoch + lt - now)
+//@ macro lifetimeOK(d) = 0 <= d && d <= ndpInfinity
+
+//@ funcfield plugin.Prefix.TimeNow() (t)
+//@   assigns ghost.clockRead
+//@   ensures T1: ghost.clockRead == t && timeSane(t)
+//@ funcfield plugin.Route.TimeNow() (t)
+//@   assigns ghost.clockRead
+//@   ensures T1: ghost.clockRead == t && timeSane(t)
+
+//@ func (*Prefix).lifetimes
+//@   requires P1: p.Deprecated ==> p.Epoch != timeZero && timeSane(p.Epoch) && p.TimeNow != nil
+//@   requires P2: lifetimeOK(p.ValidLifetime) && lifetimeOK(p.PreferredLifetime)
+//@   assigns ghost.clockRead
+//@   ensures E1 [C16,C01]: !p.Deprecated ==> valid == p.ValidLifetime && pref == p.PreferredLifetime
+//@   ensures E2 [C16,C01]: p.Deprecated ==> valid == remaining(p.Epoch, p.ValidLifetime, ghost.clockRead) && pref == remaining(p.Epoch, p.PreferredLifetime, ghost.clockRead)
+//@   ensures E3 [C16,C03]: 0 <= valid && 0 <= pref && (!p.Deprecated || ghost.clockRead >= p.Epoch ==> valid <= p.ValidLifetime && pref <= p.PreferredLifetime)
+//@   ensures E4 [C16]: p.PreferredLifetime <= p.ValidLifetime ==> pref <= valid
+//@   ensures E5 [C16]: !p.Deprecated ==> ghost.clockRead == old(ghost.clockRead)
+//@   opt safety [C16,C17]
+
+//@ func (*Route).lifetime
+//@   requires P1: r.Deprecated ==> r.Epoch != timeZero && timeSane(r.Epoch) && r.TimeNow != nil
+//@   requires P2: lifetimeOK(r.Lifetime)
+//@   assigns ghost.clockRead
+//@   ensures E1 [C16,C01]: !r.Deprecated ==> result == r.Lifetime
+//@   ensures E2 [C16,C01]: r.Deprecated ==> result == remaining(r.Epoch, r.Lifetime, ghost.clockRead)
+//@   ensures E3 [C16,C03]: 0 <= result && (!r.Deprecated || ghost.clockRead >= r.Epoch ==> result <= r.Lifetime)
+//@   opt safety [C16,C17]
+
+// Relational corollaries of the postconditions (what two successive RAs see).
+//@ lemma L16_monotone [C16]: forall(e, "Int", forall(l, "Int", forall(n1, "Int", forall(n2, "Int", n1 <= n2 ==> remaining(e, l, n2) <= remaining(e, l, n1)))))
+//@ lemma L16_nonneg [C16]: forall(e, "Int", forall(l, "Int", forall(n, "Int", remaining(e, l, n) >= 0)))
+//@ lemma L16_deadline [C16]: forall(e, "Int", forall(l, "Int", forall(n, "Int", n >= e + l ==> remaining(e, l, n) == 0)))
+//@ lemma L16_before [C16]: forall(e, "Int", forall(l, "Int", forall(n, "Int", n < e + l ==> remaining(e, l, n) == e + l - n)))
+//@ lemma L16_pref_le_valid [C16]: forall(e, "Int", forall(p, "Int", forall(v, "Int", forall(n, "Int", p <= v ==> remaining(e, p, n) <= remaining(e, v, n)))))
